@@ -83,10 +83,15 @@ TRead == /\ IsEv("read") /\ ~st.skip
               THEN st' = [st EXCEPT !.pending = Tail(@)]
               ELSE Bad
 
+\* a payload delivered earlier still has the content it was delivered with once the whole
+\* stream has been read (the harness keeps the delivered slices without copying them)
+THeld == /\ IsEv("held") /\ ~st.skip
+         /\ IF Rec.then = Rec.now THEN UNCHANGED st ELSE Bad
+
 TEnd == /\ IsEv("end") /\ ~st.skip
         /\ IF st.broken \/ (st.pending = <<>> /\ Rec.err = "eof") THEN UNCHANGED st ELSE Bad
 
-TNext == TReset \/ TIgnore \/ TSetComp \/ TSetEnc \/ TWrite \/ TRead \/ TEnd
+TNext == TReset \/ TIgnore \/ TSetComp \/ TSetEnc \/ TWrite \/ TRead \/ THeld \/ TEnd
 TSpec == /\ CursorInit
          /\ st = Fresh("cb", -1)
          /\ [][TNext]_<<st, l>>
